@@ -8,6 +8,8 @@ import SpsdkVerif.Model.BinImage
 import SpsdkVerif.Proofs.BinImage
 import SpsdkVerif.Model.HexFmt
 import SpsdkVerif.Proofs.HexFmt
+import SpsdkVerif.Generated.BinImageGeo
+import SpsdkVerif.Proofs.BinImageGen
 
 namespace SpsdkVerif.C16
 open SpsdkVerif SpsdkVerif.BinImg SpsdkVerif.Misc
@@ -347,5 +349,160 @@ example : loadText [58, 48, 48, 48, 48, 48, 48, 48, 49, 70, 70, 10] = .error .fm
 -- out-of-order and overlapping data records go through the general `Segments.add`
 example : (SegList.add ⟨[⟨0, [1, 2]⟩, ⟨8, [3]⟩], 1⟩ ⟨2, [9]⟩) = .ok ⟨[⟨0, [1, 2, 9]⟩, ⟨8, [3]⟩], 0⟩ := by decide
 example : (SegList.add ⟨[⟨0, [1, 2]⟩, ⟨8, [3]⟩], 1⟩ ⟨1, [9]⟩) = .error .fmt := by decide
+
+end SpsdkVerif.C16
+
+/-!
+# The geometry code as it is written NOW (Generated/BinImageGeo.lean) is what the hand model computes
+
+`tools/extract/gen_C16.py` re-reads `spsdk/utils/images.py` on every run and emits the integer / boolean code of
+`__len__`, `aligned_start/length`, the three checks of `validate()`, the insertion rule of `add_image`, `append_image`,
+`min_offset` / `update_offsets`, the `offset` default of `load_from_config`, the fast path of `export()`, what
+`save_binary_image` hands to bincopy, the format list and the ELF magic, with `self.x` as explicit parameters.
+Every theorem below is for ALL arguments; a changed comparison, a dropped alignment, an `or`-default, a reordered
+write makes one of them unprovable.  Together with the theorems of the first part (which are about the hand model)
+they say that those theorems speak about the present source.
+-/
+namespace SpsdkVerif.C16
+open SpsdkVerif SpsdkVerif.BinImg SpsdkVerif.Misc SpsdkVerif.GeoComb SpsdkVerif.Generated.BinImageGeo
+
+/-- `len(image)` of the source = `Img.len` of the model, for every tree (explicit size wins; else the maximum of the own
+    binary's length and every child's end, aligned) -/
+theorem len_generated (i : Img) (ha : 0 < i.alignment) :
+    genLen i.size (binTruthy i.binary) (rawLen i.binary) i.alignment (kidsOf i.children) = .ok (i.len : Int) :=
+  genLen_eq i ha
+
+/-- `aligned_start` rounds the absolute address down, `aligned_length` spans from there to the end rounded up
+    (exact integer reading of `math.floor(a / b)` / `math.ceil(a / b)`: operands below 2^53) -/
+theorem aligned_generated (abs len al : Nat) (ha : 0 < al) :
+    genAlignedStart abs al = ((abs / al * al : Nat) : Int) ∧
+    genAlignedLength abs len al = (alignNat (abs + len) al : Int) - ((abs / al * al : Nat) : Int) :=
+  ⟨genAlignedStart_eq abs al, genAlignedLength_eq abs len al ha⟩
+
+/-- the three decisions of `validate()` are the model's: own binary larger than the image (offsets and lengths are
+    naturals in the model), child not inside its parent, two different children sharing a byte - with the source's
+    inclusive-end arithmetic, whichever way the comparisons are spelled -/
+theorem validate_checks_generated (off len b l pl sb sl : Nat) (bin : Option Bytes) :
+    vSelfErr off len (binTruthy bin) (rawLen bin) = decide (binLen bin > len) ∧
+    vChildErr b l pl = decide ((b : Int) + l - 1 ≥ pl) ∧
+    vSiblingErr b l sb sl = !(decide (((b : Int) + l - 1 < sb) ∨ ((b : Int) > sb + sl - 1))) :=
+  ⟨vSelfErr_eq off len bin, vChildErr_eq b l pl, vSiblingErr_eq b l sb sl⟩
+
+/-- the model's sibling scan is the generated sibling check over all other children -/
+theorem overlap_scan_generated (b l : Nat) (sibs : List (Nat × Nat)) :
+    overlapsAny b l sibs = sibs.any (fun s => vSiblingErr b l s.1 s.2) :=
+  overlapsAny_eq_gen b l sibs
+
+/-- a tree on which none of the generated checks fires, anywhere -/
+inductive GenValid : Img → Prop
+  | mk (i : Img) :
+      vSelfErr i.offset i.len (binTruthy i.binary) (rawLen i.binary) = false →
+      (∀ c ∈ i.children, GenValid c) →
+      (∀ c ∈ i.children, vChildErr c.offset c.len i.len = false) →
+      (∀ (a b : Nat) (ca cb : Img), a ≠ b → i.children[a]? = some ca → i.children[b]? = some cb →
+        vSiblingErr ca.offset ca.len cb.offset cb.len = false) →
+      GenValid i
+
+/-- `validate()` of the model succeeds exactly on the trees the source's checks (as generated) let through; with
+    `validate_iff` above: the source's checks fire exactly on wrong geometry -/
+theorem validate_iff_generated (i : Img) : i.validate = .ok () ↔ GenValid i := by
+  induction i using Img.induct' with
+  | h s o a b p ch ih =>
+    rw [validate_ok_iff]
+    constructor
+    · rintro ⟨h1, h2, h3⟩
+      refine .mk _ ?_ (fun c hc => (ih c hc).1 (h2 c hc).1) ?_ ?_
+      · simp only [Img.binary, Img.offset]
+        rw [vSelfErr_eq]; simp only [decide_eq_false_iff_not]; omega
+      · intro c hc
+        have := (h2 c hc).2
+        rw [vChildErr_eq]; simp only [decide_eq_false_iff_not]; omega
+      · intro x y ca cb hxy hx hy
+        have := h3 x y ca cb hxy hx hy
+        unfold Ov at this
+        rw [vSiblingErr_eq]; simp only [Bool.not_eq_false', decide_eq_true_eq]; omega
+    · intro hg
+      cases hg with
+      | mk _ g1 g2 g3 g4 =>
+        simp only [Img.binary, Img.offset] at g1
+        simp only [Img.children] at g2 g3 g4
+        refine ⟨?_, ?_, ?_⟩
+        · rw [vSelfErr_eq] at g1; simp only [decide_eq_false_iff_not] at g1; omega
+        · intro c hc
+          refine ⟨(ih c hc).2 (g2 c hc), ?_⟩
+          have := g3 c hc
+          rw [vChildErr_eq] at this; simp only [decide_eq_false_iff_not] at this; omega
+        · intro x y ca cb hxy hx hy
+          have := g4 x y ca cb hxy hx hy
+          rw [vSiblingErr_eq] at this; simp only [Bool.not_eq_false', decide_eq_true_eq] at this
+          unfold Ov; omega
+
+/-- `validate()` visits what the model visits: itself, every child recursively and against its parent, every ordered
+    pair of different children; all refusals are SPSDK errors -/
+theorem validate_shape_generated :
+    validateShape = ["child:raises-spsdk", "child:validate-recursively", "self:raises-spsdk", "sibling:raises-spsdk"] := rfl
+
+/-- `add_image`: the model's sorted insert is "before the first child the generated condition holds for, else at the end" -/
+theorem add_image_generated (c : Img) (l : List Img) :
+    insertSorted c l = insertAt l (firstIdx (fun x => genInsertBefore c.offset x.offset) l) c :=
+  insertSorted_eq_gen c l
+
+/-- `append_image`: the offset given is the parent's current length -/
+theorem append_image_generated (p c : Img) :
+    p.appendImage c = p.addImage (c.withOffset (genAppendOffset p.len).toNat) := by
+  simp [Img.appendImage, genAppendOffset]
+
+/-- `min_offset` is the least child offset; `update_offsets` moves it into the image's own offset: every absolute address
+    stays, no child offset becomes negative, one becomes 0 -/
+theorem update_offsets_generated (off : Int) (kids : List (Int × Int)) (h : kids ≠ []) :
+    ∃ m, genMinOffset kids = .ok m ∧
+      (∀ k ∈ kids, genUpdSelfOffset off m + genUpdChildOffset k.1 m = off + k.1 ∧ 0 ≤ genUpdChildOffset k.1 m) ∧
+      ∃ k ∈ kids, genUpdChildOffset k.1 m = 0 := by
+  obtain ⟨m, hm, ⟨k0, hk0, he⟩, hle⟩ := genMinOffset_spec kids h
+  refine ⟨m, hm, ?_, ⟨k0, hk0, ?_⟩⟩
+  · intro k hk
+    have := hle k hk
+    simp only [genUpdSelfOffset, genUpdChildOffset]
+    omega
+  · simp only [genUpdChildOffset]; omega
+
+/-- `load_from_config`: an explicit `offset` of a region - 0 included - is used as it is, for both region kinds … -/
+theorem config_offset_explicit_generated (v abs len al : Int) :
+    genCfgOffsetFile (some v) abs len al = v ∧ genCfgOffsetBlock (some v) abs len al = v := by
+  constructor <;> simp [genCfgOffsetFile, genCfgOffsetBlock]
+
+/-- … and a region without one goes to the current length of the (root) image rounded up to its alignment -/
+theorem config_offset_default_generated (len al : Nat) (ha : 0 < al) :
+    genCfgOffsetFile none 0 len al = (alignNat len al : Int) ∧ genCfgOffsetBlock none 0 len al = (alignNat len al : Int) := by
+  have h := genAlignedLength_eq 0 len al ha
+  simp only [Nat.zero_add, Nat.zero_div, Nat.zero_mul, Int.natCast_zero, Int.sub_zero] at h
+  constructor
+  · rw [← h]; simp [genCfgOffsetFile, genAlignedLength]
+  · rw [← h]; simp [genCfgOffsetBlock, genAlignedLength]
+
+/-- `export()`: the model takes the fast path (own binary returned untouched) exactly under the source's condition -/
+theorem export_fast_generated (i : Img) :
+    i.export = if genExportFast (binTruthy i.binary) (rawLen i.binary) i.len i.size i.children.length = true
+      then .ok (i.binary.getD []) else finishExport i.alignment i.pattern (placeChildren i.children (ownBuf i.len i.binary i.pattern)) :=
+  export_fast_gen i
+
+/-- HEX / S19: a node hands bincopy first its whole pattern block (whenever it has a pattern and a non-zero length -
+    also when it has a binary), then its binary, both at its absolute address with overwrite, then its children -/
+theorem save_plan_generated (pat bin : Bool) (binLen len : Int) :
+    savePatternWritten pat bin binLen len = (pat && decide (len ≠ 0)) ∧ savePatternSize len = len ∧
+    saveBinaryWritten pat bin binLen len = bin ∧
+    saveOrder = ["pattern@absolute-address+overwrite", "binary@absolute-address+overwrite", "children"] := by
+  refine ⟨?_, ?_, ?_, rfl⟩
+  · rw [Bool.eq_iff_iff]; simp [savePatternWritten] <;> omega
+  · simp [savePatternSize]
+  · rw [Bool.eq_iff_iff]; simp [saveBinaryWritten] <;> omega
+
+/-- the formats of the property and where each goes; what makes a file an ELF file -/
+theorem formats_generated :
+    formatWriters = [("BIN", "export"), ("HEX", "as_ihex"), ("S19", "as_srec")] ∧
+    elfMagic = [0x7f, 0x45, 0x4c, 0x46] ∧ elfSniffLen = elfMagic.length := ⟨rfl, rfl, rfl⟩
+
+example : GenValid exTree := (validate_iff_generated exTree).mp (by decide)
+example : genLen 0 true 3 4 [(4, 2), (8, 3)] = .ok 12 := by decide
 
 end SpsdkVerif.C16
